@@ -66,6 +66,7 @@ def run(ctx):
     gentypes.NDARRAY_ANY_LEAVES = False
     genval.SMALL_INTS_ONLY = True
     gentypes.NO_ANY_IN_UNIONS = True
+    gentypes.VOL_OF_SEQUENCES = False
 
     def check_fixed(i, sub, source, ty, T, x):
         ctx.count('fixed_point_checked')
